@@ -1,7 +1,7 @@
 #!/usr/bin/env python3
 """Regenerate MANIFEST.json from vt/checks/*.py (META dicts) so that it always matches what exists."""
 import importlib, json, os, sys
-sys.path.insert(0, os.path.dirname(os.path.abspath(__file__)))
+sys.path.insert(0, os.path.dirname(os.path.dirname(os.path.abspath(__file__))))
 os.environ.setdefault("VERIF_NO_IMPORT", "1")
 from vt.cli import checks_available
 
@@ -52,5 +52,5 @@ def main():
     print("MANIFEST.json: %d checks, %d not_applicable" % (len(checks), len(na)))
 
 if __name__ == "__main__":
-    os.chdir(os.path.dirname(os.path.abspath(__file__)))
+    os.chdir(os.path.dirname(os.path.dirname(os.path.abspath(__file__))))
     main()
